@@ -516,6 +516,21 @@ def compare_run(run, owned):
             ih, mh = parse_http_obs(r.impl), parse_http_obs(r.model)
             same = ih is not None and mh is not None and all(ih.get(k) == mh.get(k) for k in ('status', 'vid', 'pvid', 'sr')) and blob_key(ih.get('body', '-') if ih.get('status') == 200 else '-') == blob_key(mh.get('body', '-') if mh.get('status') == 200 else '-')
             tags = [] if same else ['conc.resp']
+        elif r.ws[0] == 'config':
+            iw, mw = (r.impl or '').split(), (r.model or '').split()
+            ik = dict(w.split('=', 1) for w in iw[1:] if '=' in w)
+            mk = dict(w.split('=', 1) for w in mw[1:] if '=' in w)
+            tags = []
+            if (iw[:1] == ['ok']) != (mw[:1] == ['ok']):
+                tags.append('cfg.start')
+            elif iw[:1] == ['ok']:
+                norm = lambda x: sorted(a.replace('localhost', '127.0.0.1') for a in x.split(',') if a)
+                if norm(ik.get('listen', '')) != norm(mk.get('listen', '')):
+                    tags.append('cfg.listen')
+                if ik.get('dir') != mk.get('dir'):
+                    tags.append('cfg.dir')
+        elif r.ws[0] == 'restart':
+            tags = [] if r.impl == r.model else ['cfg.restart']
         elif r.ws[0] in ('req', 'prefill', 'seq', 'illegal', 'fault', 'crash', 'pool'):
             tags = []
         elif r.ws[0] == 'http':
